@@ -210,7 +210,7 @@ Section Limit.
                               |intros x [<-|[]] Sx; nosucc Sx|].
           cbn [tpc]. intros st _ _ X1. discriminate X1.
         * destruct (Nat.ltb (cur s) lim && match semq s with [] => true | _ => false end); inversion H; subst; clear H.
-          -- (* admitted: enters the base replicator *)
+          -- (* a permit is free: enters the base replicator *)
              unfold begin_base. destruct (todo t) as [|d rest] eqn:Etd.
              ++ cbn [finish_base]. unfold sem_release.
                 set (t' := mkthr (Done 0) (todo (mkthr (tpc t) [] (cancelled t) (Some []))) (cancelled (mkthr (tpc t) [] (cancelled t) (Some []))) None).
